@@ -13,3 +13,6 @@ import TlxVerif.Props.C11
 #print axioms TlxVerif.C11.barS_action_by_releaser
 #print axioms TlxVerif.C11.barS_no_deadlock
 #print axioms TlxVerif.C11.barS_actions_total
+#print axioms TlxVerif.C11.sem_stuck_is_at_rest
+#print axioms TlxVerif.C11.barM_stuck_is_at_rest
+#print axioms TlxVerif.C11.barS_stuck_is_at_rest
